@@ -130,3 +130,34 @@ func refPlane(pos, n P3, h float64) ref {
 	q0 := sub(pos, mul(n, h))
 	return ref{exact: true, margin: func(p P3) float64 { return dot(sub(p, q0), n) }}
 }
+
+// rounded cone, same union-of-balls definition, minimised in closed form (used on the far-field
+// ladder, where the ternary search is too slow; the two are cross-checked against each other there):
+// with s = axial and x = radial coordinate of p relative to a, g(t) = sqrt((s-tL)²+x²) - r1 - t(r2-r1);
+// g'(t) = L·(k - (s-tL)/D) with k = (r1-r2)/L, so for |k| >= 1 g is monotone (minimum at an end) and
+// otherwise g'(t*) = 0 at s - t*L = k·x/sqrt(1-k²); g is convex, so the minimum over [0,1] is at clamp(t*).
+func refRoundedConeClosedForm(a, b P3, r1, r2 float64) ref {
+	d := sub(b, a)
+	L := norm(d)
+	g := func(p P3, t float64) float64 {
+		return norm(sub(p, add(a, mul(d, t)))) - (r1 + t*(r2-r1))
+	}
+	return ref{margin: func(p P3) float64 {
+		m := math.Min(g(p, 0), g(p, 1))
+		if L == 0 {
+			return m
+		}
+		k := (r1 - r2) / L
+		if k >= 1 || k <= -1 {
+			return m
+		}
+		pa := sub(p, a)
+		s := dot(pa, d) / L
+		x := norm(cross(pa, d)) / L
+		t := (s - k*x/math.Sqrt(1-k*k)) / L
+		if t > 0 && t < 1 {
+			m = math.Min(m, g(p, t))
+		}
+		return m
+	}}
+}
